@@ -29,6 +29,9 @@ def div(u: DiscreteField):
     if u.div is not None:
         return u.div
     elif u.grad is not None:
+        if len(u.grad.shape) == 5:
+            # matrix-valued field: (div u)_i = d u_ij / d x_j
+            return np.einsum('ijj...->i...', u.grad)
         try:
             return np.einsum('ii...', u.grad)
         except ValueError:  # one-dimensional u?
